@@ -161,6 +161,9 @@ func runProperty(ps *PropSpec, repo string, overlay map[string][]byte, opts RunO
 	wd := workdir()
 	res.Workdir = wd
 	opts.Workdir = wd
+	for _, k := range e.unboundContracts() {
+		res.Missing = append(res.Missing, "contract "+k+" (no function of this name in the loaded package)")
+	}
 	var all []*Obligation
 	for _, pf := range ps.Functions {
 		fn := e.findFunction(pf.Key)
